@@ -101,12 +101,18 @@ func (p *printer) ref(t *Term) string {
 		expr = fmt.Sprintf("((_ fp.to_sbv %d) RTZ %s)", w, p.fp(t.A[0]))
 	case OFToUI:
 		expr = fmt.Sprintf("((_ fp.to_ubv %d) RTZ %s)", w, p.fp(t.A[0]))
-	case OFCvt, OSIToF, OUIToF:
+	case OFCvt, OSIToF, OUIToF, OFAdd, OFSub, OFMul, OFDiv, OFRnd, OFSqrt:
 		// result is a float carried as bits: introduce a fresh bv constrained through to_fp
 		name := fmt.Sprintf("fpb%d", len(p.id))
 		fmt.Fprintf(&p.buf, "(declare-const %s %s)\n", name, sortStr(w))
 		var src string
 		switch t.Op {
+		case OFAdd, OFSub, OFMul, OFDiv:
+			src = fmt.Sprintf("(%s RNE %s %s)", map[Op]string{OFAdd: "fp.add", OFSub: "fp.sub", OFMul: "fp.mul", OFDiv: "fp.div"}[t.Op], p.fp(t.A[0]), p.fp(t.A[1]))
+		case OFSqrt:
+			src = fmt.Sprintf("(fp.sqrt RNE %s)", p.fp(t.A[0]))
+		case OFRnd:
+			src = fmt.Sprintf("(fp.roundToIntegral %s %s)", []string{"RTZ", "RTN", "RTP", "RNA", "RNE"}[t.C], p.fp(t.A[0]))
 		case OFCvt:
 			src = fmt.Sprintf("(%s RNE %s)", fpTo(w), p.fp(t.A[0]))
 		case OSIToF:
